@@ -52,7 +52,6 @@ CtsEcb(enc, c, m, p, bs, n) ==
   ELSE LET x == RdIn(m, p, bs) IN
        CtsEcb(enc, c, Wr(m, p, IF enc THEN EncB(c, x) ELSE DecB(c, x)), p + bs, bs, n - 1)
 
-Patch(blk, from, src) == [j \in 1..Len(blk) |-> IF j >= from /\ j < from + Len(src) THEN src[j - from + 1] ELSE blk[j]]
 
 (* ---- CBC-CS1 (cbc_cs1.rs:67-121) ---- *)
 CbcCs1Enc(c, iv, m, L, bs) ==
